@@ -165,10 +165,9 @@ pub fn judge_step(
                     "a line without the sentence shape was rejected with a CHECKSUM error".into(),
                 )),
                 _ => {
-                    // accepted although the value after '*' (> 0xFF) cannot equal the XOR: also C02
-                    let wide = crate::spec::line::recognise_wide_checksum(line)
-                        .map(|(p, v)| !p.embedded_star && v != p.xor as u32)
-                        .unwrap_or(false);
+                    // accepted although no hexadecimal value equal to the XOR follows the first '*'
+                    // (no '*' at all, no hex digits, or a different / too large value): also C02
+                    let wide = !crate::spec::line::checksum_relation_holds(line);
                     f.push((
                         if wide { vec!["C08", "C02"] } else { vec!["C08"] },
                         "asm.accepts-malformed".into(),
